@@ -120,9 +120,7 @@ func runC15(c C15Case) (st Stats, err error) {
 			})
 		}
 		ApplyAmbient(src, c.SrcAmb&^AmbPushOK)
-		if c.Opt != "policy" {
-			ApplyAmbient(dst, c.DstAmb&^AmbPushOK)
-		}
+		ApplyAmbient(dst, c.DstAmb&^AmbPushOK) // (mutex, recorded error ... on every destination, policy-bearing ones included)
 		switch c.Form {
 		case "native":
 			dstArg = dst
